@@ -687,13 +687,26 @@ namespace vd
 
 // ---- api: histories of C API calls (C18) ----
 #include "export/sqfvm.h"
+#include <cstring>
 namespace vd
 {
     struct cbrec { long long ud, cd; int sev; std::string msg; };
     static std::vector<cbrec> g_cb;
+    static void* g_api_running = nullptr;         // instance whose sqfvm_call is in progress (for re-entrant requests from the callback)
+    static std::vector<int> g_reenter;
     static void api_cb(void* user_data, void* call_data, int32_t severity, const char* message, uint32_t length)
     {
         g_cb.push_back({ (long long)(intptr_t)user_data, (long long)(intptr_t)call_data, severity, std::string(message ? message : "", message ? length : 0) });
+        // a host that reacts to a message by asking the SAME instance for something while its call is still executing
+        if (g_api_running && message && g_cb.back().msg.find("REENTER:call") != std::string::npos)
+        {
+            void* h = g_api_running;
+            g_api_running = nullptr;     // one level only
+            const char* nested = "diag_log \"nested\"";
+            g_reenter.push_back((int)sqfvm_call(h, (void*)(intptr_t)999, 's', nested, (uint32_t)std::strlen(nested)));
+            g_reenter.push_back((int)sqfvm_status(h));
+            g_api_running = h;
+        }
     }
     js::val mode_api(const js::val& req)
     {
@@ -731,6 +744,11 @@ namespace vd
                 if (handle) sqfvm_destroy_instance(handle);
                 inst.erase(h);
             }
+            else if (op == "destroy_raw")
+            {   // whatever the handle is (NULL, memory that is no instance)
+                sqfvm_destroy_instance(handle);
+                r.set("code", -1);
+            }
             else if (op == "load_config")
             {
                 std::string t = st["text"].str();
@@ -740,7 +758,13 @@ namespace vd
             {
                 std::string t = st["text"].str();
                 std::string ty = st["type"].str("s");
+                g_reenter.clear();
+                g_api_running = handle;
                 r.set("code", (int)sqfvm_call(handle, (void*)(intptr_t)st["cd"].i64(0), ty.empty() ? 's' : ty[0], t.data(), (uint32_t)t.size()));
+                g_api_running = nullptr;
+                auto re = js::val::array();
+                for (int c : g_reenter) re.push((long long)c);
+                r.set("reenter", re);
             }
             else if (op == "status")
             {
